@@ -59,6 +59,8 @@ def stage_numpy(d, k, shape, rate, bs, il, xl, z0, dz_ms, extra_arrays=0, seed=0
     samples = z0 + dz_ms * np.arange(shape[2], dtype=np.float64)
     th = {}
     fields = [segyio.TraceField.CDP_X, segyio.TraceField.CDP_Y, segyio.TraceField.offset]
+    if (k // 10) % 2:           # a word stored AFTER the generated inline / crossline arrays (slots follow the byte position of the word, not the order they were given in)
+        fields = [segyio.TraceField.ShotPoint, segyio.TraceField.offset, segyio.TraceField.CDP_X]
     for j in range(extra_arrays):
         th[fields[j]] = (np.arange(shape[0] * shape[1]).reshape(shape[0], shape[1]) * (j + 2) - 17).astype(('<i4', '>i4', '<i8', '>i2')[(k + j) % 4] if shape[0] * shape[1] < 5000 else np.int32)
     p = os.path.join(d, f'n{k}.sgz')
@@ -366,6 +368,15 @@ def run(run):
             for k in range(fc.F['narr']):
                 fc.ref.footer_array(k)
             run.ok('C03.decodable')
+            # the table says which slot holds which header word: on a regular cube the slots named INLINE_3D / CROSSLINE_3D hold the header's own axes
+            F = fc.F
+            if F['dim'] == 3 and not (F.get('mask') and 0 in F['mask']):
+                ni, nx = F['n'][0], F['n'][1]
+                for key, want in ((189, np.repeat(F['il']['s'] + F['il']['d'] * np.arange(ni), nx)), (193, np.tile(F['xl']['s'] + F['xl']['d'] * np.arange(nx), ni))):
+                    if key in fc.stored:
+                        got = np.asarray(fc.ref.footer_array(list(fc.stored).index(key))).astype(np.int64).reshape(-1)
+                        run.check(got.shape == want.shape and np.array_equal(got, want), 'C03.line-arrays-in-their-slots', dict(case, word=key),
+                                  got[:6].tolist(), want[:6].tolist())
         except BaseException as e:
             if isinstance(e, (KeyboardInterrupt, SystemExit, MemoryError)):
                 raise
@@ -483,5 +494,13 @@ def replay(run, rep):
                 fc.ref.footer_array(k)
         except BaseException as e:
             run.fail(rep['clause'], c, str(e), None)
+        return
+    if name == 'line-arrays-in-their-slots':
+        fc = session.load_files([session.FileCase(r[0]['path'])], None)[0]
+        F, key = fc.F, c['word']
+        ni, nx = F['n'][0], F['n'][1]
+        want = np.repeat(F['il']['s'] + F['il']['d'] * np.arange(ni), nx) if key == 189 else np.tile(F['xl']['s'] + F['xl']['d'] * np.arange(nx), ni)
+        got = np.asarray(fc.ref.footer_array(list(fc.stored).index(key))).astype(np.int64).reshape(-1)
+        run.check(got.shape == want.shape and np.array_equal(got, want), rep['clause'], c, got[:6].tolist(), want[:6].tolist())
         return
     run.check(name not in failed, rep['clause'], c, failed, None)
